@@ -697,9 +697,7 @@ func c10Sweep(c *Ctx) error {
 	// look-ahead buffer, a merge loop or a rescan that is linear per step becomes quadratic in total ("no hang")
 	long := 0
 	size := c.N(64<<10, 512<<10)
-	runL := func(mt, prefix, unit, suffix string) {
-		reps := size / len(unit)
-		doc := prefix + strings.Repeat(unit, reps) + suffix
+	timeL := func(mt, doc string) (time.Duration, string) {
 		in := []byte(doc)
 		t0 := time.Now()
 		crash := h.Safely(30*time.Second, func() {
@@ -707,15 +705,39 @@ func c10Sweep(c *Ctx) error {
 			var w bytes.Buffer
 			_ = m.Minify(mt, &w, bytes.NewReader(in))
 		})
-		el := time.Since(t0)
+		return time.Since(t0), crash
+	}
+	runL := func(mt, prefix, unit, suffix string) {
+		reps := size / len(unit)
+		doc := prefix + strings.Repeat(unit, reps) + suffix
+		el, crash := timeL(mt, doc)
 		long++
 		key := fmt.Sprintf("long run %s %s + %d x %s + %s", mt, h.Q([]byte(prefix)), reps, h.Q([]byte(unit)), h.Q([]byte(suffix)))
 		st.Count(key, true)
 		st.Tag("long-run")
 		if crash != "" {
 			c.R.Add(h.Finding{Stage: st.Name, Kind: "fail", What: "minifier " + crash + " on a long flat run", Input: key, Config: fmt.Sprintf("%d bytes", len(doc))})
-		} else if el > 5*time.Second+time.Duration(len(doc))*2*time.Millisecond/10 {
+			return
+		}
+		if el > 5*time.Second+time.Duration(len(doc))*2*time.Millisecond/10 {
 			c.R.Add(h.Finding{Stage: st.Name, Kind: "fail", What: fmt.Sprintf("minifier took %v for %d bytes of a long flat run (bound 5 s + 0.2 ms/byte)", el, len(doc)), Input: key})
+			return
+		}
+		if el > 300*time.Millisecond {
+			// growth: four times the input may cost four times the time (allow eight, plus slack for a loaded machine); the
+			// comparison is repeated and only a result that holds three times in a row is reported
+			small := prefix + strings.Repeat(unit, reps/4) + suffix
+			worst := true
+			var tS, tL time.Duration
+			for try := 0; try < 3 && worst; try++ {
+				tS, _ = timeL(mt, small)
+				tL, _ = timeL(mt, doc)
+				worst = tL > 8*tS+150*time.Millisecond
+			}
+			st.Tag("long-run-growth-measured")
+			if worst {
+				c.R.Add(h.Finding{Stage: st.Name, Kind: "fail", What: fmt.Sprintf("running time grows faster than linearly on a long flat run: %v for %d bytes but %v for %d bytes", tS, len(small), tL, len(doc)), Input: key})
+			}
 		}
 	}
 	for _, pre := range []string{"", "x ", "<ul><li>a</li>", "<p>x ", "<pre> x ", "<table><tr><td>a</td>", "<select><option>a"} {
